@@ -446,6 +446,36 @@ def _r06e(cx, rb, comp, conj):
                     return True
         return False
 
+    def helper_closure(v):
+        """`self.<helper>(.. result_accumdata.rc_parents ..)` where the helper returns the closure over .parents of that argument"""
+        if not (isinstance(v, ast.Call) and isinstance(v.func, ast.Attribute) and is_name(v.func.value, "self", "cls") and cls_node is not None
+                and any("result_accumdata.rc_parents" in norm(a) for a in v.args)):
+            return False
+        h = next((f_ for f_ in cls_node.body if isinstance(f_, FUNC) and f_.name == v.func.attr), None)
+        if h is None:
+            return False
+        hp = [p_ for p_ in params(h) if p_ not in ("self", "cls")]
+        k_ = next(i_ for i_, a in enumerate(v.args) if "result_accumdata.rc_parents" in norm(a))
+        if k_ >= len(hp):
+            return False
+        seedp = hp[k_]
+        for r_ in [r_ for r_ in walk_local(h) if isinstance(r_, ast.Return) and isinstance(r_.value, ast.Name)]:
+            if closure_loop_in(h, r_.value.id, lambda w: any(val is not None and seedp in names_in(val) for _, val in assignments(h, w)) or w == seedp):
+                return True
+        return False
+
+    def closure_value(v, depth):
+        """does the value of expression v contain the closure?"""
+        if isinstance(v, ast.Name):
+            return is_closure(v.id, depth + 1)
+        if isinstance(v, ast.BinOp) and isinstance(v.op, ast.BitOr):
+            return closure_value(v.left, depth) or closure_value(v.right, depth)
+        if isinstance(v, ast.Call) and isinstance(v.func, ast.Attribute) and v.func.attr == "union":
+            return any(closure_value(x, depth) for x in [v.func.value] + list(v.args))
+        if isinstance(v, ast.Call) and call_name(v) in ("set", "frozenset", "list", "sorted") and len(v.args) == 1:
+            return closure_value(v.args[0], depth)
+        return helper_closure(v)
+
     def is_closure(name, depth=0):
         """does the set `name` (local of the branch reader) contain the closure over .parents of result_accumdata.rc_parents?"""
         if depth > 3:
@@ -453,32 +483,14 @@ def _r06e(cx, rb, comp, conj):
         if closure_loop_in(rb, name, lambda w: any(v is not None and "result_accumdata.rc_parents" in norm(v) for _, v in assignments(rb, w))):
             return True
         for _, v in assignments(rb, name):
-            if v is None:
-                continue
-            # unions of sets
-            parts = []
-            if isinstance(v, ast.BinOp) and isinstance(v.op, ast.BitOr):
-                parts = [v.left, v.right]
-            elif isinstance(v, ast.Call) and isinstance(v.func, ast.Attribute) and v.func.attr == "union":
-                parts = [v.func.value] + list(v.args)
-            if any(isinstance(p_, ast.Name) and is_closure(p_.id, depth + 1) for p_ in parts):
+            if v is not None and not (isinstance(v, ast.Name) and v.id == name) and closure_value(v, depth):
                 return True
-            # a helper of the class called with the head's parents: the helper computes the closure of its argument
-            if isinstance(v, ast.Call) and isinstance(v.func, ast.Attribute) and is_name(v.func.value, "self", "cls") and cls_node is not None \
-                    and any("result_accumdata.rc_parents" in norm(a) for a in v.args):
-                h = next((f_ for f_ in cls_node.body if isinstance(f_, FUNC) and f_.name == v.func.attr), None)
-                if h is not None:
-                    hp = [p_ for p_ in params(h) if p_ not in ("self", "cls")]
-                    k_ = next(i_ for i_, a in enumerate(v.args) if "result_accumdata.rc_parents" in norm(a))
-                    if k_ < len(hp):
-                        seedp = hp[k_]
-                        for r_ in [r_ for r_ in walk_local(h) if isinstance(r_, ast.Return) and isinstance(r_.value, ast.Name)]:
-                            if closure_loop_in(h, r_.value.id, lambda w: any(val is not None and seedp in names_in(val) for _, val in assignments(h, w)) or w == seedp):
-                                return True
-        # sets grown by update() from a closure set
         for c in walk_local(rb):
-            if isinstance(c, ast.Call) and isinstance(c.func, ast.Attribute) and is_name(c.func.value, name) and c.func.attr == "update" and c.args and isinstance(c.args[0], ast.Name) \
-                    and c.args[0].id != name and is_closure(c.args[0].id, depth + 1):
+            # sets grown in place from a closure value: name.update(X), name |= X
+            if isinstance(c, ast.Call) and isinstance(c.func, ast.Attribute) and is_name(c.func.value, name) and c.func.attr == "update" and c.args \
+                    and not (isinstance(c.args[0], ast.Name) and c.args[0].id == name) and closure_value(c.args[0], depth):
+                return True
+            if isinstance(c, ast.AugAssign) and is_name(c.target, name) and isinstance(c.op, ast.BitOr) and closure_value(c.value, depth):
                 return True
         return False
     for name in excl:
